@@ -10,52 +10,52 @@ C={
    text="every history of <=4 batches (default configuration; <=3 for the 23 other directory/format/mode/merge configurations; thorough one deeper) over the 16 batch shapes on two ids, run on the real writer under the default schedule; after every batch and after close+reopen a fresh reader is compared document by document with the abstract multiset index; Writer.Insert/Update/Delete against batches; the duplicate-id probe is enumerated separately",
    note="schedules are not varied here (C05/C06 do that); larger id spaces and longer histories are outside the bound", ref="DESIGN.md §6 C01"),
  "C02": dict(engine="crash", tech=CRASH,
-   text="every schedule within d deviations (1 quick, 2 thorough) of 10 writer scenarios x every crash image of the recorded storage trace (all operation boundaries, every subset of a clean-up batch, every torn prefix / zero-filled / stale-tail variant of the persist in flight): the recovered content is the abstract index after a prefix, compatible with the call/return stamps, that contains every batch acknowledged (nil return or persisted-callback(nil)) before the crash; every distinct trace is replayed on the real FileSystemDirectory and compared byte for byte",
+   text="every schedule within d deviations (1 quick, 2 thorough) of 13 writer scenario x default-scheduler combinations (background-first, clients-first, reverse-priority, round-robin) x every crash image of the recorded storage trace (all operation boundaries, every subset of a clean-up batch, every torn prefix / zero-filled / stale-tail variant of the persist in flight): the recovered content is the abstract index after a prefix, compatible with the call/return stamps, that contains every batch acknowledged (nil return or persisted-callback(nil)) before the crash; every distinct trace is replayed on the real FileSystemDirectory and compared byte for byte",
    note="trusts the scheduler shim and the crashfs device (bound to the real directory by the per-trace conformance replay and by C13); directory-entry durability assumed", ref="DESIGN.md §4, §6 C02"),
  "C03": dict(engine="crash", tech=CRASH+", depth-2 crash/recover/continue/crash",
    text="same runs as C02 judged by the recovery oracle: opening any crash image never panics or faults (mmap loader, real directory), succeeds whenever a snapshot had been completed, shows the abstract index after some prefix; on the default schedule's trace (thorough: every schedule) a writer is reopened on every structural image, a continuation batch applied and every crash image of that second life judged against the cumulative model",
    note="depth 2 uses a structural subset of torn lengths; chains deeper than 2 are not explored", ref="DESIGN.md §4, §6 C03"),
  "C04": dict(engine="sched", tech=SCHED+"; oracle = equality of repeated observations of held readers + reference index",
-   text="every schedule within d deviations of 8 scenarios in which readers of different ages are held open next to a client whose updates/deletes, merges, persists and clean-ups supersede the segments and files they reference; every observation (count, match-all with stored fields, document values, dictionary scan, unscored bitmap conjunction/disjunction, scored searches on recycled iterators, lookups by id) must equal the reader's first one, and the first one the abstract index at acquisition; closed handles are poisoned so that a premature close is observable",
+   text="every schedule within d deviations of 16 scenarios (incl. three with I/O faults as environment choices) in which readers of different ages are held open next to a client whose updates/deletes, merges, persists and clean-ups supersede the segments and files they reference; every observation (count, match-all with stored fields, document values, dictionary scan, unscored bitmap conjunction/disjunction, scored searches on recycled iterators, lookups by id) must equal the reader's first one, and the first one the abstract index at acquisition; closed handles are poisoned so that a premature close is observable",
    note="an observation is atomic w.r.t. writer activity (C15 covers interleavings inside searches)", ref="DESIGN.md §6 C04"),
  "C05": dict(engine="sched", tech=SCHED+" + linearizability checking (porcupine)",
-   text="every schedule within d deviations from the default scheduler (d=2 quick, 3 thorough, cut by budget and reported) of 5 colliding multi-client scenarios in safe and unsafe mode on the real writer; each recorded call/return history is decided by porcupine against the abstract index",
+   text="every schedule within d deviations from the default scheduler (d=2 quick, 3 thorough, cut by budget and reported) of 9 colliding multi-client scenario x default-scheduler combinations in safe and unsafe mode on the real writer; each recorded call/return history is decided by porcupine against the abstract index",
    note="trusts the verifmc scheduler shim (generated overlay), the crashfs storage model and porcupine; schedules beyond the deviation bound and larger scenarios are not covered", ref="DESIGN.md §3, §6 C05"),
  "C06": dict(engine="sched", tech=SCHED+"; oracle = sequential reference index after every client step",
-   text="every schedule within d deviations of 11 scenarios in which a single client's updates and deletes land on segments under in-memory merge, file merge and persist swap (including merge sets emptied before introduction, stay-behind segments, the persister nap timer); a fresh reader is compared with the sequential model after every batch, at quiescence and after reopen",
+   text="every schedule within d deviations of 17 scenarios in which a single client's updates and deletes land on segments under in-memory merge, file merge and persist swap (including merge sets emptied before introduction, stay-behind segments, the persister nap timer); a fresh reader is compared with the sequential model after every batch, at quiescence and after reopen",
    note="single client, so the expected content is unique; schedules beyond the bound not covered", ref="DESIGN.md §6 C06"),
  "C07": dict(engine="enum", tech=ENUM+" (all corpora over 3 terms x 5 documents in 2 segments with pending deletions x boolean shapes; per-query-type alphabets) against an independent set-semantics evaluator",
-   text="all 2^15 term assignments (reduced by term permutation) x boolean shapes of depth <=2 in three collector/score modes, every term-dictionary query over a small byte vocabulary, all phrases/multi-phrases with slop over short documents, numeric/date ranges on encoding boundaries, geo boxes and circles on a grid; result id set must equal an independent evaluator's, no id twice, no deleted document",
+   text="all 2^15 term assignments (reduced by term permutation) x boolean shapes of depth <=2 in three collector/score modes, every term-dictionary query over a small byte vocabulary, all phrases/multi-phrases with slop over short documents, numeric/date ranges on encoding boundaries, geo boxes and circles on a grid (each also as a clause of a conjunction, both clause orders); result id set must equal an independent evaluator's, no id twice, no deleted document",
    note="the depth-2 product is bounded by leaf count as stated in the evidence; geo points near an edge are classified apart as the property prescribes", ref="DESIGN.md §6 C07"),
  "C08": dict(engine="enum", tech=ENUM+" (all corpora <=3 documents x all build recipes x fixed query list), differential oracle against the canonical recipe",
    text="every multiset of <=3 (thorough <=4) documents x 16 recipe groups (batch partitioning, forced merges, reopen, backup, offline writer, in-memory, segment v2, optimisation switches, score none, MultiSearch partitions) x 44 queries with field sort and aggregations: identical hits, stored fields, order and aggregations; scores bit-identical whenever no merged segment is involved",
    note="differential: a defect shared by all recipes is C07/C09/C16's business", ref="DESIGN.md §6 C08"),
  "C09": dict(engine="enum", tech=ENUM+" (all match lists over tie-heavy alphabets x all (n,from) x all sort orders <=3 keys; all page sizes) against a reference total order",
-   text="the TopN collector alone on every match list over tie-heavy key alphabets for every (n, from) in {0..13}^2 and every sort order of <=3 keys with direction and missing placement, across the slice/heap switch; end to end through Reader.Search on small corpora in every segment layout, with After/Before chains for every page size",
+   text="the TopN collector alone on every match list over tie-heavy key alphabets for every (n, from) in {0..13}^2 and every sort order of <=3 keys with direction and missing placement, across the slice/heap switch; end to end through Reader.Search on small corpora in every segment layout, with After/Before chains for every page size, and requests without a sort order issued before, inside and after such chains",
    note="key alphabets and list lengths as stated in the evidence", ref="DESIGN.md §6 C09"),
  "C10": dict(engine="enum", tech=ENUM+" (all pairs / all (interval, probe) triples over structural boundary sets; exhaustive local windows)",
    text="round trip of every boundary value at every shift, order embedding for all pairs at every shift, every (min,max,incl,incl) interval over the boundary set against every probe through the real range searchers, fully exhaustive 256-point windows, and real-index range queries and sorts",
    note="values away from the structural boundary sets are covered only inside the exhaustive windows", ref="DESIGN.md §6 C10"),
  "C11": dict(engine="sched", tech=SCHED+" with file/handle/lock invariants on every trace prefix; explicit enumeration of lock-protocol operation sequences on the real directory",
-   text="(a) every schedule within d deviations of 8 scenarios (retention 1,2,3; held readers; eager merges): after every storage operation at least N snapshots are loadable with all their segment files once N were committed, no successful Remove hits a file the root or a held reader refers to, every handle is closed exactly once and none is open and the lock is free at the end; (b) all 9330 sequences of length <=5 over {open W1, open W2, batch W1, close W1, close W2, open reader} on the real FileSystemDirectory against a lock model",
+   text="(a) every schedule within d deviations of 12 scenarios (retention 1,2,3; held readers; eager merges; three with I/O faults as environment choices): after every storage operation at least N snapshots are loadable with all their segment files once N were committed, no successful Remove hits a file the root or a held reader refers to, every handle is closed exactly once and none is open and the lock is free at the end; (b) all 9330 sequences of length <=5 over {open W1, open W2, batch W1, close W1, close W2, open reader} on the real FileSystemDirectory against a lock model",
    note="flock semantics of the device are bound to the real directory by the conformance replay in C02", ref="DESIGN.md §6 C11"),
- "C12": dict(engine="enum", tech=ENUM+" (all snapshots over boundary alphabets; every truncation, single-bit flip, tail, short file)",
-   text="exhaustive round trip of all snapshots over boundary alphabets and exhaustive rejection (every truncation, every single-bit flip, tails, all short files) through the real decoder and loader on an in-memory and the real file-system directory with both loaders; bounded allocation measured; fallback to an older intact snapshot checked for every damage",
-   note="fuzzing clause replaced by the stated exhaustive damage classes; CRC-valid crafted garbage is outside them", ref="DESIGN.md §6 C12"),
- "C13": dict(engine="enum", tech=ENUM+" (full grid of sizes x prior file states x writer behaviours x kinds on the real directory, fsync observed)",
-   text="the complete grid of item sizes, pre-existing file states, item-writer failure points and kinds on the real FileSystemDirectory; os.File.Write/Sync observed through an os overlay so that sync-after-last-write-before-ack is decided on the real call sequence",
+ "C12": dict(engine="enum", tech=ENUM+" (all snapshots over boundary alphabets; every truncation, single-bit flip, tail, short file, CRC-valid length-field substitution)",
+   text="exhaustive round trip of all snapshots over boundary alphabets and exhaustive rejection (every truncation, every single-bit flip, tails, all short files) through the real decoder and loader on an in-memory and the real file-system directory with both loaders; bounded allocation measured; fallback to an older intact snapshot checked for every damage through OpenReader and OpenWriter; every length field replaced by boundary values with the checksum recomputed",
+   note="fuzzing clause replaced by the stated exhaustive damage classes; CRC-valid garbage only as far as the length-field substitutions go", ref="DESIGN.md §6 C12"),
+ "C13": dict(engine="enum", tech=ENUM+" (full grid of sizes x prior file states x writer behaviours x kinds on the real directory, fsync observed; all ordered pairs of boundary identifiers)",
+   text="the complete grid of item sizes, pre-existing file states, item-writer failure points (incl. a Remove of the item issued in mid-write) and kinds on the real FileSystemDirectory; every ordered pair of identifiers around 2^48, 2^52, 2^63, 2^64: one file per item; os.File.Write/Sync observed through an os overlay so that sync-after-last-write-before-ack is decided on the real call sequence",
    note="trusts the os overlay hook; directory-entry durability is not part of the property", ref="DESIGN.md §6 C13"),
  "C14": dict(engine="crash", tech="stateless model checking with fault answers as explicit environment choices (every single placement; thorough: pairs) + crash-image enumeration of the faulty traces",
-   text="every directory operation after open is a choice point that may fail (persist before any byte / half way / at sync, load, list, remove; transient and sticky); bound 1 = every single placement plus every single scheduling deviation, bound 2 = all pairs; oracle: no panic/deadlock/spin, async error fired, batch error surfaced, held and fresh readers answer according to the batches applied so far, a later acknowledgement makes everything applied before durable on every crash image, no crash image faults or shows a non-prefix",
-   note="single sequential client in safe mode; faults only after OpenWriter succeeded", ref="DESIGN.md §4.4, §6 C14"),
+   text="every directory operation after open is a choice point that may fail (persist before any byte / half way / at sync, load, list, remove; transient and sticky); bound 1 = every single placement plus every single scheduling deviation, bound 2 = all pairs; oracle: no panic/deadlock/spin, async error fired, batch error surfaced, every reader taken after any batch keeps answering as at acquisition (through quiescence, Close and the closing of younger readers) and fresh readers show the batches applied so far, a later acknowledgement makes everything applied before durable on every crash image, no crash image faults or shows a non-prefix",
+   note="single sequential client in safe mode, plus /conc scenarios (two safe clients; unsafe batches with persisted callbacks) and /open scenarios (faults during a second OpenWriter)", ref="DESIGN.md §4.4, §6 C14"),
  "C15": dict(engine="sched", tech=SCHED+", every explored schedule run under the Go race detector with a detector-invisible scheduler hand-off",
-   text="every schedule within d deviations of 6 scenarios on the public API over the real directory (concurrent batches and reader acquisition, parallel searches on one reader including the bitmap paths, Close from its own thread while merges/persists are in flight, nap timer, index-level Stats); the binary is a -race build whose scheduler hand-off is invisible to the detector while the program's own synchronisation is visible, so each schedule is a race-detector run with exactly the program's happens-before relation; no report, no deadlock, termination within the horizon, reopen with everything acknowledged",
+   text="every schedule within d deviations of 14 scenario x default-scheduler combinations (background-first, reverse-priority; thorough: round-robin too) on the public API over the real directory (concurrent batches and reader acquisition, parallel searches on one reader including the bitmap paths, Close from its own thread while merges/persists are in flight, nap timer, index-level Stats); the binary is a -race build whose scheduler hand-off is invisible to the detector while the program's own synchronisation is visible, so each schedule is a race-detector run with exactly the program's happens-before relation; no report, no deadlock, termination within the horizon, reopen with everything acknowledged",
    note="race freedom is decided per explored schedule (bounded); buffered-channel capacity edge emulated per channel (can only lose a report)", ref="DESIGN.md §3.7, §6 C15"),
  "C16": dict(engine="enum", tech=ENUM+" (all small corpora x queries x aggregation trees depth <=2 x all (n, from, sort, after)) against direct computation",
    text="all multisets of <=3 (thorough <=4) documents over an 8-document alphabet with single-, multi-valued and missing fields x 4 queries x 25 aggregation trees x every (n, from), sort order and paging key: counts, sums, min/max/avg/weighted avg, bucket counts and nested metrics equal direct computation over the match set, identical across all search settings; cardinality equals a fresh sketch; quantiles within [min,max] and monotone",
    note="exact arithmetic holds because the alphabet is integer valued", ref="DESIGN.md §6 C16"),
  "C17": dict(engine="enum", tech=ENUM+" (full parameter grids of the similarity; all small corpora x boolean query family) with an explanation interpreter",
-   text="the BM25 scorer over the full grid of frequencies, lengths, document frequencies, collection sizes and boosts (finite, positive, monotone laws, linear boost); all corpora of 4 documents x the boolean query family: composite score = boost x sum of parts, explanation value = score bit for bit, every explanation node re-evaluated from its message; every scoring query kind x boosts",
+   text="the BM25 scorer over the full grid of frequencies, lengths, document frequencies, collection sizes and boosts (finite, positive, monotone laws, linear boost); all corpora of 4 documents x the boolean query family: composite score = boost x sum of parts; the same corpora with the text split over the source fields of a composite field (score and statistics of the unsplit field); explanation value = score bit for bit, every explanation node re-evaluated from its message; every scoring query kind x boosts",
    note="query family bounded as stated in the evidence", ref="DESIGN.md §6 C17"),
  "C18": dict(engine="enum", tech=ENUM+" (all byte strings up to length L over per-configuration alphabets x 329 analysis configurations)",
    text="every bundled analyzer, tokenizer, char filter and every configurable filter over its parameter grid on all strings of <=L symbols over an 8-symbol alphabet per configuration (script letters that fire the rules, ASCII, digit, space, joiner, a truncated lead byte, a stray continuation byte) plus all rule strings: no panic, termination, determinism, position increments, offsets within the text the tokenizer saw, term = slice for pure tokenizers; self-match through a real index",
